@@ -241,8 +241,13 @@ def run(prog, world, sem, rep):
             # load + modify + save form: the save itself lies behind is_expired == false
             def not_expired(f, resolve):
                 return f[0] == "truth" and f[2] is False and f[1].op == "call" and f[1].info.endswith("Expiration::is_expired")
+            # ... and so does every Ok result of the function itself (an arm that returns Ok without the test - e.g. "exactly the
+            # remaining amount: remove the entry" - lets an expired allowance be spent)
+            root_v = [v2 for v2 in dvs if v2.parent is None][0]
+            oks_f = [bb2 for (bb2, idx2, kind2, x2) in sem.ret_sites(root_v.be) if kind2 == "ok" and bb2 in root_v.blocks]
             saves = [x for x in deff if x[2] == "write"]
-            if saves and all(site_guarded(sem, x[0], x[1], not_expired)[0] for x in saves):
+            if saves and all(site_guarded(sem, x[0], x[1], not_expired)[0] for x in saves) and \
+                    oks_f and all(site_guarded(sem, root_v, bb2, not_expired)[0] for bb2 in oks_f):
                 exp_ok = True
         rep.ob("C18.d", "deduct_allowance fails on an expired allowance", exp_ok,
                "Ok result only behind is_expired == false" if exp_ok else "the allowance update can succeed without checking expiry", where(da_body))
